@@ -7,7 +7,7 @@
      randomly flaky on the unchanged tree are listed in FLAKY and re-run once on their own);
   4. (optional) which /verif checks report a violation with the change applied to the scratch copy.
 
-Usage: confirm_seed.py <dir with patch.diff and demo.py> [--jobs N] [--skip-suite]
+Usage: confirm_seed.py <dir with patch.diff and demo.py> [--jobs N] [--skip-suite] [--out FILE]
 Writes <dir>/confirm.json and prints a summary.
 '''
 import json
@@ -131,7 +131,8 @@ def main():
     ok = out.get('patch_applies') and out.get('imports') and out.get('demo_clean_rc') == 0 and out.get('demo_patched_rc', 0) != 0 \
         and (skip_suite or not out['suite']['missing_confirmed'])
     out['confirmed'] = bool(ok)
-    with open(os.path.join(d, 'confirm.json'), 'w') as f:
+    dest = sys.argv[sys.argv.index('--out') + 1] if '--out' in sys.argv else os.path.join(d, 'confirm.json')
+    with open(dest, 'w') as f:
         json.dump(out, f, indent=1)
     print(json.dumps({k: v for k, v in out.items() if k != 'suite'}, indent=1))
     if 'suite' in out:
